@@ -208,4 +208,52 @@ theorem absDone_general {PA PB : Par} (hP : ParOk PA PB)
   have : absDone PA PB N = true := by unfold absDone; rw [e]; exact hf
   exact absDone_mono this hN
 
+/-! ## progress in every round -/
+
+theorem mu_final (P : Par) (al : AL) (h : al.final = true) : mu P al = 0 := by
+  unfold AL.final at h
+  simp only [Bool.and_eq_true, decide_eq_true_eq] at h
+  obtain ⟨⟨⟨⟨h1, h2⟩, -⟩, -⟩, -⟩ := h
+  simp [mu, h1, h2, sentOf, gotOf, txW]
+
+theorem netM_final (PA PB : Par) (n : AN) (h : n.final = true) : netM PA PB n = 0 := by
+  unfold AN.final at h
+  simp only [Bool.and_eq_true] at h
+  simp [netM, mu_final PA n.a h.1.1.1, mu_final PB n.b h.1.1.2]
+
+/-- the invariant holds after any number of rounds (until the network is final) -/
+theorem abs_run_inv {PA PB : Par} (hP : ParOk PA PB) (K : Nat) (k1 : K ≤ PA.kCf) (k2 : K ≤ PA.kFc) (k3 : K ≤ PB.kCf)
+    (k4 : K ≤ PB.kFc) : ∀ (i : Nat) (n : AN), NInv PA PB n → n.R + netM PA PB n ≤ K →
+    ∃ ni, absRounds PA PB i n = some ni ∧
+      (ni.final = true ∨ (NInv PA PB ni ∧ ni.R + netM PA PB ni ≤ K)) := by
+  intro i
+  induction i with
+  | zero => intro n h hk; exact ⟨n, rfl, Or.inr ⟨h, hk⟩⟩
+  | succ i ih =>
+    intro n h hk
+    cases hf : n.final with
+    | true =>
+      obtain ⟨n', e, f⟩ := absRounds_final PA PB (i + 1) n hf
+      exact ⟨n', e, Or.inl f⟩
+    | false =>
+      obtain ⟨n1, e1, h1, hR, hle, hlt⟩ := round_ok hP h ⟨by omega, by omega, by omega, by omega⟩
+      have := hlt hf
+      obtain ⟨ni, e2, hh⟩ := ih n1 h1 (by omega)
+      exact ⟨ni, by simp only [absRounds, e1]; exact e2, hh⟩
+
+/-- **No deadlock on this schedule (abstract network).** After any number `i` of rounds the next round succeeds and
+    does not increase the potential; it strictly decreases it unless both transfers are complete. -/
+theorem abs_progress {PA PB : Par} (hP : ParOk PA PB)
+    (k1 : 4 * (PA.n + PB.n) + 2 ≤ PA.kCf) (k2 : 4 * (PA.n + PB.n) + 2 ≤ PA.kFc)
+    (k3 : 4 * (PA.n + PB.n) + 2 ≤ PB.kCf) (k4 : 4 * (PA.n + PB.n) + 2 ≤ PB.kFc) (i : Nat) :
+    ∃ ni n', absRounds PA PB i {} = some ni ∧ absRound PA PB ni = some n' ∧
+      netM PA PB n' ≤ netM PA PB ni ∧ (ni.final = false → netM PA PB n' < netM PA PB ni) := by
+  have hm := netM_init PA PB hP
+  obtain ⟨ni, e, hh⟩ := abs_run_inv hP _ k1 k2 k3 k4 i {} (ninv_init hP) (by rw [hm]; simp)
+  rcases hh with hf | ⟨hinv, hk⟩
+  · obtain ⟨n', e', f'⟩ := absRound_final PA PB ni hf
+    refine ⟨ni, n', e, e', by rw [netM_final PA PB n' f']; exact Nat.zero_le _, fun h0 => by rw [hf] at h0; cases h0⟩
+  · obtain ⟨n', e', -, -, hle, hlt⟩ := round_ok hP hinv ⟨by omega, by omega, by omega, by omega⟩
+    exact ⟨ni, n', e, e', hle, hlt⟩
+
 end Isotp.DuplexLive
